@@ -94,7 +94,7 @@ fn main() {
                 "AB" | "AS" => abi::run(&mut out, &mut rng, 0),
                 "TR" => tracing::replay(&mut out, &f),
                 "PO" | "MV" | "CK" | "LG" => chess::replay(&mut out, &f),
-                "FP" | "BL" => fen::replay(&mut out, &f),
+                "FP" | "FR" | "BL" => fen::replay(&mut out, &f),
                 "BK" | "BKS" => chess::book(&mut out),
                 "GI" => iter::replay(&mut out, &f),
                 "SR" | "MR" => search::replay(&mut out, &f),
